@@ -11,13 +11,15 @@ THEOREMS = [
     "Astm.C05.fresh_full_timeout", "Astm.C05.timeout_discards_without_delivery", "Astm.C05.never_closed_if_paced",
     "Astm.C05.example_timeline", "Astm.tstep_refines",
 ]
-RULE = ("timed histories on a fake event loop with an integer virtual clock: unit sequences (ENQ, frames, corrupted frames, "
+RULE = ("timed histories on a fake event loop with an integer virtual clock, and on asyncio's own selector event loop with "
+        "only its clock replaced by a virtual one: unit sequences (ENQ, frames, corrupted frames, "
         "EOT, garbage, refused ACK/NAK) with inter-arrival delays from {well below, just below (timeout-1), just above "
         "(timeout+1), several times} the timeout, final idle period, timeouts {1,2,5,60} and the default (no timeout "
         "argument); arrivals exactly on a deadline only in the exploratory stream; non-trivial = at least one gap >= "
         "timeout or within one tick of it")
 LEVEL_NOTE = ("proof (partial): the handle-level timer machine refines the single-deadline specification for every timed "
-              "history; asyncio's real timer heap / clock resolution / float time are not modelled (fake loop with integer time)")
+              "history; asyncio's timer heap, handle cancellation and scheduling are exercised for real on a virtual clock (stream asyncio-loop); "
+              "wall-clock resolution and float time are not modelled")
 ASSUMPTIONS = ["asyncio's call_later fires a non-cancelled handle at its deadline and never before (event-loop contract)",
                "a unit arriving exactly at a deadline is scheduler dependent and excluded (exploratory stream only)"]
 TIMEOUTS = [1, 2, 5, 60, None]
@@ -93,7 +95,8 @@ class RefTimer(object):
         return fired, exp
 
 
-def run_timed(stream, hs, ctx, in_oracle=True):
+def run_timed(stream, hs, ctx, in_oracle=True, conn_cls=None):
+    conn_cls = conn_cls or impl.Conn
     lines = []
     for fmt, timeout, evs, meta in hs:
         tm = timeout if timeout is not None else "@"
@@ -107,9 +110,14 @@ def run_timed(stream, hs, ctx, in_oracle=True):
         model = [None] * len(lines)
     from senaite.astm import protocol
     for (fmt, timeout, evs, meta), ml in zip(hs, model):
-        c = impl.Conn(fmt=fmt, timeout=timeout)
+        # scale > 1: the configured timeout and all times are timeout/scale, t/scale seconds (exact binary fractions);
+        # the model and the oracle count in ticks of 1/scale s
+        scale = meta.get("scale", 1)
+        c = conn_cls(fmt=fmt, timeout=(timeout / scale if scale != 1 else timeout) if timeout is not None else None)
         eff_timeout = timeout if timeout is not None else protocol.TIMEOUT
         case = {"format": fmt, "timeout": timeout, "events": [tev_hex(e) for e in evs]}
+        if scale != 1:
+            case["seconds_per_tick"] = "1/%d" % scale
         stream.case(case, nontrivial=meta.get("nontrivial", True))
         ref = RefTimer(fmt, 15 if timeout is None else timeout)   # the documented default is 15 s
         mouts = None
@@ -122,7 +130,9 @@ def run_timed(stream, hs, ctx, in_oracle=True):
         for i, e in enumerate(evs):
             q0 = len(c.queue.items)
             closes0 = c.t.closes
-            fired = c.loop.advance(e[1])
+            fired = c.loop.advance(e[1] / scale if scale != 1 else e[1])
+            if scale != 1:
+                fired = [int(x * scale) if float(x * scale).is_integer() else x * scale for x in fired]
             fire_deliv = c.queue.items[q0:]
             fire_closes = c.t.closes - closes0
             ob = None
@@ -161,12 +171,15 @@ def run_timed(stream, hs, ctx, in_oracle=True):
         if ml is not None and ml.startswith("ok ") and mouts is not None:
             mlive = ml.split(" | ")[1].strip()
             mlive = sorted(int(x) for x in mlive.split(",")) if mlive else []
-            ilive = sorted(h.when() for h in c.loop.live())
+            ilive = sorted((int(h.when() * scale) if float(h.when() * scale).is_integer() else h.when() * scale)
+                           for h in c.loop.live())
             if mlive != ilive:
                 stream.disagree(case, "live timers %s" % ilive, "live timers %s" % mlive)
         if in_oracle and len(c.loop.live()) > 1:
             stream.fail(case, "more than one live timer handle: %s" % [h.when() for h in c.loop.live()],
                         signature="%s/several-live-timers" % stream.name)
+        if hasattr(c, "close"):
+            c.close()
 
 
 def run(ctx):
@@ -178,7 +191,23 @@ def run(ctx):
         evs, big = timed_history(r, 15 if timeout is None else timeout)
         hs.append((r.choice(["astm", "lis2a", "json"]), timeout, evs, {"nontrivial": big}))
         s.count("timeout=%s" % timeout)
+    # non-integer configured timeouts: 2.5 s, 0.75 s, 1.25 s (in ticks of a quarter second)
+    for _ in range(6000 if ctx.thorough else 800):
+        ticks = r.choice([10, 3, 5])
+        evs, big = timed_history(r, ticks)
+        hs.append((r.choice(["astm", "lis2a", "json"]), ticks, evs, {"nontrivial": big, "scale": 4}))
+        s.count("timeout=%s/4" % ticks)
     run_timed(s, hs, ctx)
+    # the same kind of histories on asyncio's own event loop (its timer heap, cancellation and scheduling), with only
+    # the clock replaced by a virtual one
+    a = Stream("asyncio-loop")
+    hs = []
+    for _ in range(6000 if ctx.thorough else 800):
+        timeout = r.choice(TIMEOUTS)
+        evs, big = timed_history(r, 15 if timeout is None else timeout)
+        hs.append((r.choice(["astm", "lis2a", "json"]), timeout, evs, {"nontrivial": big}))
+        a.count("timeout=%s" % timeout)
+    run_timed(a, hs, ctx, conn_cls=impl.RealLoopConn)
     x = Stream("exploratory-ties", in_domain=False)
     hs = []
     for _ in range(500):
@@ -186,7 +215,7 @@ def run(ctx):
         evs, big = timed_history(r, timeout, ties=True)
         hs.append(("astm", timeout, evs, {}))
     run_timed(x, hs, ctx, in_oracle=False)
-    return [s, x]
+    return [s, a, x]
 
 
 def search(ctx, disagreements):
